@@ -8,6 +8,7 @@ import checks_wrap
 CHECKS = {
     "C01": checks_ns.check_c01,
     "C02": checks_ns.check_c02,
+    "C04": checks_ns.check_c04,
     "C05": checks_ns.check_c05,
     "C09": checks_wrap.check_c09,
     "C15": checks_idm.check_c15,
